@@ -208,14 +208,46 @@ theorem rapEv_nonneg (cfg : Sim.Cfg ℝ) (st : Sim.Station ℝ) (e : Ev ℝ) (hV
   have : 0 ≤ e.requested - e.delivered := by linarith
   positivity
 
+/-- column `τ` of the pilot matrix as the array over the stations -/
+def colOf (m : Pilots.Mat ℝ) (n τ : Nat) : List ℝ := (List.range n).map fun k => m.get k τ
+
+/-- an applied column passes the feasibility predicate, or it is all zero (a period in which the
+    scheduler was not consulted applies zeros) -/
+def ColOk (feasP : List ℝ → Bool) (m : Pilots.Mat ℝ) (n τ : Nat) : Prop :=
+  feasP (colOf m n τ) = true ∨ ∀ k, m.get k τ = 0
+
+theorem colOk_congr (feasP : List ℝ → Bool) (m m' : Pilots.Mat ℝ) (n τ : Nat)
+    (h : ∀ k, k < n → m'.get k τ = m.get k τ) (hz : (∀ k, m.get k τ = 0) → ∀ k, m'.get k τ = 0)
+    (hc : ColOk feasP m n τ) : ColOk feasP m' n τ := by
+  have hcol : colOf m' n τ = colOf m n τ := by
+    unfold colOf
+    apply List.map_congr_left
+    intro k hk
+    exact h k (List.mem_range.mp hk)
+  rcases hc with h1 | h1
+  · left; rw [hcol]; exact h1
+  · right; exact hz h1
+
+theorem colOf_eq_arr (m : Pilots.Mat ℝ) (n τ : Nat) (arr : List ℝ) (hl : arr.length = n)
+    (h : ∀ k, k < n → m.get k τ = arr.getD k 0) : colOf m n τ = arr := by
+  unfold colOf
+  apply List.ext_getElem
+  · simp [hl]
+  · intro i h1 h2
+    simp only [List.getElem_map, List.getElem_range]
+    rw [h i (by simpa using h1)]
+    simp [List.getD_eq_getElem?_getD, h2]
+
 /-- what a loop head needs besides the ledger invariant of C02 -/
-structure SInv (cfg : Sim.Cfg ℝ) (s : Sim.State ℝ) : Prop where
+structure SInv (feasP : List ℝ → Bool) (cfg : Sim.Cfg ℝ) (s : Sim.State ℝ) : Prop where
   led : Ledger.Inv cfg s
+  cols : ∀ τ, τ < s.core.iter → ColOk feasP s.pilots cfg.stations.length τ
   pwf : s.pilots.WF cfg.stations.length
   evs : ∀ e ∈ s.evs, LedgerOk e ∧ StaticIn cfg e
   fut : ∀ k τ, s.core.iter ≤ τ → s.pilots.get k τ = 0
 
-theorem applyStage_safe (cfg : Sim.Cfg ℝ) (inf : ℝ) (hc : CfgOk cfg inf) (a : Sim.State ℝ)
+theorem applyStage_safe (feasP : List ℝ → Bool) (cfg : Sim.Cfg ℝ) (inf : ℝ) (hc : CfgOk cfg inf) (a : Sim.State ℝ)
+    (hcols : ∀ τ, τ ≤ a.core.iter → ColOk feasP a.pilots cfg.stations.length τ)
     (hocc : Ledger.OccSound cfg.core a.core.occ) (hwf : a.pilots.WF cfg.stations.length)
     (hev : ∀ e ∈ a.evs, LedgerOk e ∧ StaticIn cfg e)
     (hG1 : ∀ k st, cfg.stations[k]? = some st → Accepts st.kind (a.pilots.get k a.core.iter))
@@ -225,7 +257,8 @@ theorem applyStage_safe (cfg : Sim.Cfg ℝ) (inf : ℝ) (hc : CfgOk cfg inf) (a 
     (Sim.applyStage cfg a).2 ≠ some .invalidRate ∧
     ∀ s', Sim.applyStage cfg a = (s', none) →
       s'.pilots.WF cfg.stations.length ∧ (∀ e ∈ s'.evs, LedgerOk e ∧ StaticIn cfg e) ∧
-      (∀ k τ, s'.core.iter ≤ τ → s'.pilots.get k τ = 0) := by
+      (∀ k τ, s'.core.iter ≤ τ → s'.pilots.get k τ = 0) ∧
+      (∀ τ, τ < s'.core.iter → ColOk feasP s'.pilots cfg.stations.length τ) := by
   constructor
   · apply applyStage_not_invalidRate cfg hc.tol a
     intro k st hk
@@ -239,7 +272,18 @@ theorem applyStage_safe (cfg : Sim.Cfg ℝ) (inf : ℝ) (hc : CfgOk cfg inf) (a 
     rw [h] at hp hcore
     simp only at hp hcore
     obtain ⟨w, s2, s3, hu, hs3, rfl⟩ := Ledger.applyStage_ok h
-    refine ⟨?_, ?_, ?_⟩
+    have hiter : (EventCore.advance s3.core).iter = a.core.iter + 1 := by
+      simp only at hcore
+      rw [hcore]; rfl
+    refine ⟨?_, ?_, ?_, ?_⟩
+    rotate_left 3
+    · intro τ hτ
+      have hτ' : τ < (EventCore.advance s3.core).iter := hτ
+      simp only at hp
+      show ColOk feasP s3.pilots cfg.stations.length τ
+      rw [hp]
+      exact colOk_congr feasP a.pilots _ _ τ (fun k _ => Pilots.increaseWidth_get' _ _ _ _)
+        (fun hz k => by rw [Pilots.increaseWidth_get']; exact hz k) (hcols τ (by omega))
     · show (s3.pilots).WF _
       simp only at hp
       rw [hp]; exact Pilots.increaseWidth_wf hwf _
@@ -282,23 +326,23 @@ theorem applyStage_safe (cfg : Sim.Cfg ℝ) (inf : ℝ) (hc : CfgOk cfg inf) (a 
 /-- what the induction needs of a scheduler: it never raises `InvalidRate` itself, and on every
     state with sound occupancy and ledger-correct EV records its answer is the dict of an array
     with one accepted entry per station that stays within the occupant's remaining demand -/
-structure SchedSafe (cfg : Sim.Cfg ℝ) (inf : ℝ)
+structure SchedSafe (feasP : List ℝ → Bool) (cfg : Sim.Cfg ℝ) (inf : ℝ)
     (sched : Sim.View ℝ → Except EventCore.Err (Sim.Schedule ℝ)) : Prop where
   err : ∀ v e, sched v = .error e → e ≠ .invalidRate
   ok : ∀ a : Sim.State ℝ, Ledger.OccSound cfg.core a.core.occ →
     (∀ e ∈ a.evs, LedgerOk e ∧ StaticIn cfg e) →
     ∀ sch, sched (Sim.view cfg a) = .ok sch →
       ∃ arr : List ℝ, sch = formatArraySchedule (SimSorted.infraOf inf cfg) arr ∧
-        arr.length = cfg.stations.length ∧
+        arr.length = cfg.stations.length ∧ feasP arr = true ∧
         (∀ k st, cfg.stations[k]? = some st → Accepts st.kind (arr.getD k 0)) ∧
         (∀ k st e, cfg.stations[k]? = some st → Sim.occupantEv a st.id = some e →
           0 ≤ arr.getD k 0 ∧ arr.getD k 0 ≤ rapEv cfg st e)
 
-theorem body_safe (cfg : Sim.Cfg ℝ) (inf : ℝ) (hc : CfgOk cfg inf)
-    (sched : Sim.View ℝ → Except EventCore.Err (Sim.Schedule ℝ)) (hs : SchedSafe cfg inf sched)
-    (s : Sim.State ℝ) (hJ : SInv cfg s) :
+theorem body_safe (feasP : List ℝ → Bool) (cfg : Sim.Cfg ℝ) (inf : ℝ) (hc : CfgOk cfg inf)
+    (sched : Sim.View ℝ → Except EventCore.Err (Sim.Schedule ℝ)) (hs : SchedSafe feasP cfg inf sched)
+    (s : Sim.State ℝ) (hJ : SInv feasP cfg s) :
     (Sim.body cfg sched s).2 ≠ some .invalidRate ∧
-    ∀ s', Sim.body cfg sched s = (s', none) → SInv cfg s' := by
+    ∀ s', Sim.body cfg sched s = (s', none) → SInv feasP cfg s' := by
   obtain ⟨f1, f2, f3, f4, f5, f6⟩ := Ledger.eventsStage_frame cfg s hJ.led.occ_sound
   have f7 := Sim.eventsStage_pilots cfg s
   have hne := eventsStage_not_invalidRate cfg s
@@ -355,7 +399,7 @@ theorem body_safe (cfg : Sim.Cfg ℝ) (inf : ℝ) (hc : CfgOk cfg inf)
               · rename_i m0 hup
                 have hm : m0 = m := by injection hsch
                 subst hm
-                obtain ⟨arr, rfl, hal, hG1, hG2⟩ := hs.ok { s1 with core := markInvoked s1.core }
+                obtain ⟨arr, rfl, hal, hfe, hG1, hG2⟩ := hs.ok { s1 with core := markInvoked s1.core }
                   f6 hev1 sch hsched
                 rw [← hids] at hup
                 obtain ⟨u1, u2, u3⟩ := update_with_array (SimSorted.infraOf inf cfg)
@@ -365,8 +409,25 @@ theorem body_safe (cfg : Sim.Cfg ℝ) (inf : ℝ) (hc : CfgOk cfg inf)
                 have hklt : ∀ k st, cfg.stations[k]? = some st → k < cfg.stations.length := by
                   intro k st hk
                   exact (List.getElem?_eq_some_iff.mp hk).1
-                obtain ⟨a1, a2⟩ := applyStage_safe cfg inf hc
+                obtain ⟨a1, a2⟩ := applyStage_safe feasP cfg inf hc
                   { s1 with core := markScheduled (markInvoked s1.core), pilots := m0 }
+                  (by intro τ hτ
+                      have hτ' : τ ≤ s1.core.iter := hτ
+                      show ColOk feasP m0 cfg.stations.length τ
+                      by_cases hcur : τ = s1.core.iter
+                      · left
+                        rw [hcur, colOf_eq_arr m0 _ _ arr hal (fun k hk => u2 k hk)]
+                        exact hfe
+                      · refine colOk_congr feasP s.pilots m0 _ τ
+                          (fun k hk => by rw [u3 k τ hk hcur, f7]) ?_
+                          (hJ.cols τ (by rw [← f5]; omega))
+                        intro hz k
+                        by_cases hk : k < cfg.stations.length
+                        · rw [u3 k τ hk hcur, f7]; exact hz k
+                        · unfold Pilots.Mat.get
+                          have : m0.rows.getD k [] = [] := by
+                            simp [List.getD_eq_getElem?_getD, u1.1, not_lt.mp hk]
+                          rw [this]; rfl)
                   f6 u1 hev1
                   (by intro k st hk
                       show Accepts st.kind (m0.get k s1.core.iter)
@@ -386,11 +447,17 @@ theorem body_safe (cfg : Sim.Cfg ℝ) (inf : ℝ) (hc : CfgOk cfg inf)
                           simp [List.getD_eq_getElem?_getD, u1.1, not_lt.mp hk]
                         rw [this]; rfl)
                 refine ⟨a1, fun s' h => ?_⟩
-                obtain ⟨b1, b2, b3⟩ := a2 s' h
-                exact ⟨hled s' h, b1, b2, b3⟩
+                obtain ⟨b1, b2, b3, b4⟩ := a2 s' h
+                exact ⟨hled s' h, b4, b1, b2, b3⟩
       · have hns' : needsSched cfg.maxRecompute s1.core = false := by simpa using hns
         simp only [hns', Bool.false_eq_true, if_false] at hled ⊢
-        obtain ⟨a1, a2⟩ := applyStage_safe cfg inf hc s1 f6 (by rw [f7]; exact hJ.pwf) hev1
+        obtain ⟨a1, a2⟩ := applyStage_safe feasP cfg inf hc s1
+          (by intro τ hτ
+              rw [f7]
+              by_cases hcur : τ = s1.core.iter
+              · right; intro k; exact hJ.fut k τ (by rw [hcur, f5])
+              · exact hJ.cols τ (by rw [← f5]; omega))
+          f6 (by rw [f7]; exact hJ.pwf) hev1
           (by intro k st hk
               rw [f7, hJ.fut k _ (by rw [f5])]
               exact accepts_zero inf st.kind (hc.kinds st (List.mem_of_getElem? hk)))
@@ -406,16 +473,16 @@ theorem body_safe (cfg : Sim.Cfg ℝ) (inf : ℝ) (hc : CfgOk cfg inf)
           (by intro k τ hτ
               rw [f7]; exact hJ.fut k τ (by rw [← f5]; omega))
         refine ⟨a1, fun s' h => ?_⟩
-        obtain ⟨b1, b2, b3⟩ := a2 s' h
-        exact ⟨hled s' h, b1, b2, b3⟩
+        obtain ⟨b1, b2, b3, b4⟩ := a2 s' h
+        exact ⟨hled s' h, b4, b1, b2, b3⟩
 
 /-- the run: no `InvalidRate` is ever raised, and every loop head reached satisfies `SInv`
     (in particular `delivered ≤ requested` and the battery invariant for every EV record) -/
-theorem run_safe (cfg : Sim.Cfg ℝ) (inf : ℝ) (hc : CfgOk cfg inf)
-    (sched : Sim.View ℝ → Except EventCore.Err (Sim.Schedule ℝ)) (hs : SchedSafe cfg inf sched) :
-    ∀ (n : Nat) (s : Sim.State ℝ), SInv cfg s →
+theorem run_safe (feasP : List ℝ → Bool) (cfg : Sim.Cfg ℝ) (inf : ℝ) (hc : CfgOk cfg inf)
+    (sched : Sim.View ℝ → Except EventCore.Err (Sim.Schedule ℝ)) (hs : SchedSafe feasP cfg inf sched) :
+    ∀ (n : Nat) (s : Sim.State ℝ), SInv feasP cfg s →
       (Sim.run cfg sched n s).2 ≠ some .invalidRate ∧
-      ((Sim.run cfg sched n s).2 = none → SInv cfg (Sim.run cfg sched n s).1) := by
+      ((Sim.run cfg sched n s).2 = none → SInv feasP cfg (Sim.run cfg sched n s).1) := by
   intro n
   induction n with
   | zero => intro s hJ; exact ⟨by simp [Sim.run], fun _ => by simpa [Sim.run] using hJ⟩
@@ -423,7 +490,7 @@ theorem run_safe (cfg : Sim.Cfg ℝ) (inf : ℝ) (hc : CfgOk cfg inf)
     intro s hJ
     unfold Sim.run
     split
-    · obtain ⟨b1, b2⟩ := body_safe cfg inf hc sched hs s hJ
+    · obtain ⟨b1, b2⟩ := body_safe feasP cfg inf hc sched hs s hJ
       cases hb : Sim.body cfg sched s with
       | mk s1 err =>
         rw [hb] at b1
@@ -436,9 +503,12 @@ theorem run_safe (cfg : Sim.Cfg ℝ) (inf : ℝ) (hc : CfgOk cfg inf)
           exact ih s1 (b2 s1 hb)
     · exact ⟨by simp, fun _ => hJ⟩
 
-theorem init_sinv (cfg : Sim.Cfg ℝ)
-    (hb : ∀ e ∈ cfg.evs, BattAlg.Inv e.batt ∧ e.delivered ≤ e.requested) : SInv cfg (Sim.init cfg) := by
-  refine ⟨Ledger.init_ledger cfg, Pilots.zeros_wf _ _, ?_, ?_⟩
+theorem init_sinv (feasP : List ℝ → Bool) (cfg : Sim.Cfg ℝ)
+    (hb : ∀ e ∈ cfg.evs, BattAlg.Inv e.batt ∧ e.delivered ≤ e.requested) :
+    SInv feasP cfg (Sim.init cfg) := by
+  refine ⟨Ledger.init_ledger cfg, ?_, Pilots.zeros_wf _ _, ?_, ?_⟩
+  · intro τ hτ
+    simp [Sim.init, EventCore.init] at hτ
   · intro e he
     have he' : e ∈ cfg.evs := he
     exact ⟨hb e he', e, he', rfl, rfl⟩
